@@ -36,6 +36,26 @@ CHECKS = {
    technique="bounded-exhaustive query histories executed in lock-step on all six database variants of the real code, differential oracle",
    text="Every history of <=2 (quick) / <=3 (thorough) steps over the 37-step alphabet H (inserts/updates/removals of nodes, edges, values, aliases, indexes; committing and aborted transactions; a query failing midway) from 5 base states is executed in lock-step on DbMemory, DbFile, Db and DbAny x {memory,file,mapped}; every step result (Ok payload or error text) and, at the end of every history, the full observable dump must be identical.",
    note="Variant-independent defects are invisible to this differential oracle (they are the business of C08-C18). Values/keys outside the alphabet are not covered."),
+ "C07": dict(level="fault_enumeration", engine="serde_checks", design="§4/C07, harness/serde_checks/NOTES.md",
+   technique="exhaustive damage enumeration of seed database files (every truncation, every bit flip, every aligned 8-byte field x boundary values, crafted record headers, damaged/garbage recovery logs, all tiny files), each opened and fully read by the real code in supervised worker processes",
+   text="Seed files are produced by scripted histories (quick: one 1.1 KiB seed; thorough: four seeds with indexes, aliases, out-of-line values and free regions); every damaged (file, log) pair of the damage space is opened with Db, DbFile and DbMemory and, if it opens, completely read (elements, values, keys, aliases, edge counts, indexes, index searches). Outcome must be Ok or Err: never a panic, an abort (worker process dies), a single allocation >= 256 MiB or a hang (CPU-time bound).",
+   note="Worker processes with a counting allocator; a hang is > 2 s (quick) / 5 s (thorough) of thread CPU time. Open findings (record table sized by an index read from the file, explicit panic on an unknown value type demanded by the repo's own should_panic test, graph.rs overflows, recovery-log hang) are listed in known_findings.json."),
+ "C12": dict(level="exploration", engine="serde_checks", design="§4/C12, harness/serde_checks/NOTES.md",
+   technique="exhaustive value grid on the real database, bit-for-bit read back",
+   text="330 (quick) / 630 (thorough) values of all nine value types (lengths 0..40 around the 15/16-byte inline limit in 1-, 2- and 4-byte characters, extreme integers, float classes incl. signed zeros, subnormals, infinities, quiet/signalling NaN payloads, vectors of 0..5) x used as key and as value x single and bulk insert x 6 database variants x 4 read-back phases (immediately, after relocating inserts, after reopen, after reopen with the other variant); compared by bits. The conversions DbValue::from(f64 / Vec<f64>) are checked bitwise too.",
+   note="Grid, not all values."),
+ "C20": dict(level="exploration", engine="serde_checks", design="§4/C20, harness/serde_checks/NOTES.md",
+   technique="exhaustive boundary-value product over a compiled corpus of 85 serializable types",
+   text="85 types (every built-in AgdbSerialize impl, the query types, 25 user types using the derive macros: named/tuple/unit structs, enums with unit/tuple/struct variants, nested, generic, optional, vector fields) x the full product of per-field boundary values capped at 10^4 (quick) / 2*10^5 (thorough) per type: deserialize(serialize(x)) == x (floats by bits), serialized_size(x) == len, decoding tolerates trailing bytes.",
+   note="Two open findings: non-UTF-8 paths and IPv6 flow info are serialized through their text form (lossy by format)."),
+ "C21": dict(level="fault_enumeration", engine="serde_checks", design="§4/C21, harness/serde_checks/NOTES.md",
+   technique="exhaustive mutation enumeration of valid encodings and of all tiny byte strings for 98 deserializers, in supervised worker processes",
+   text="For each of 85 deserializers and 13 Vec<T>::try_from(DbValue::Bytes) conversions: every truncation of every seed encoding, every 8-byte window at every offset x 12 boundary values, every byte x 6 values, all byte strings of length <= 3 over {00,01,7f,80,ff}, boundary-8 prefixes + <= 2 bytes, also behind a tag byte (quick 1.06*10^6 cases, thorough 5.5*10^6). Outcome must be Ok or Err: never panic, abort, allocation >= 256 MiB or hang.",
+   note="One open finding: Vec of a zero-sized derived type loops by the untrusted length."),
+ "C22": dict(level="exploration", engine="serde_checks", design="§4/C22, harness/serde_checks/NOTES.md",
+   technique="exhaustive boundary-value product over a compiled corpus of 14 derived user types, stored and read back through the real database",
+   text="14 user types (scalar, string, vector, optional, nested-value, flattened, renamed, skipped fields, db_id of every supported type) x per-field boundary products capped at 2000 (quick) / 30000 (thorough) per type: insert singly and in batches of 3, select back as the type, compare; update through the id field and compare every other element's dump.",
+   note="One open finding: updating an Option field to None leaves the old property (documented as omission; violates the statement by the letter)."),
  "C08": dict(level="model_checking", engine="core_checks", design="§4/C08-C11,C18",
    technique="bounded-exhaustive command sequences on the real database in lock-step with a reference model (abstract multigraph), ids learned and constrained",
    text="Every sequence of <=5 (quick) / <=6 (thorough) commands over a 14-command alphabet (single, many-to-many and each edge inserts incl. self-loops, parallel edges and a missing endpoint; removals by id, alias and search; id reuse) from 2 base states runs on DbMemory (branching by copy) and on RefDb; after every command: acceptance agrees, new ids have the right sign and a free slot, node count, edge endpoints, per-node total/outgoing/incoming edge counts, cascade removal incl. properties, removed elements not selectable.",
@@ -97,6 +117,10 @@ m = {
    "add_only": True,
  },
  "engines": [
+   {"name": "serde_checks", "path": "/verif/harness/serde_checks", "serves_properties": [c for c in CHECKS if CHECKS[c]["engine"]=="serde_checks"], "kind_free_text": "value grids, serialization corpus, damage/mutation enumerators with worker-process isolation"},
+   {"name": "search_checks", "path": "/verif/harness/search_checks", "serves_properties": [c for c in CHECKS if CHECKS[c]["engine"]=="search_checks"], "kind_free_text": "exhaustive small-graph / condition-list / slice enumeration against reference evaluators"},
+   {"name": "raft_checks", "path": "/verif/harness_raft/raft_checks", "serves_properties": [c for c in CHECKS if CHECKS[c]["engine"]=="raft_checks"], "kind_free_text": "explicit-state and deviation-bounded exploration of the real raft.rs under a virtual clock"},
+   {"name": "server_checks", "path": "/verif/harness_server", "serves_properties": [c for c in CHECKS if CHECKS[c]["engine"]=="server_checks"], "kind_free_text": "request-sequence exploration of the in-process server; task-release-order enumeration"},
    {"name": "core_checks", "path": "/verif/harness/core_checks", "serves_properties": [c for c in CHECKS if CHECKS[c]["engine"]=="core_checks"], "kind_free_text": "sequence / crash-point / fault / schedule explorers over the real agdb library (Rust, own engine in /verif/harness/engine)"},
  ],
  "checks": checks,
